@@ -25,6 +25,10 @@ pub struct BlockOp {
     pub dust: u64,
     pub gt: bool,
     pub dt: u64,
+    /// one of the block's transactions creates an NFT (Bound-Normal-Bound triple); 0 = none, else the
+    /// deposit class of the payload slip (1 = tiny, 2 = half of the input, 3 = nearly all)
+    #[serde(default)]
+    pub nft: u8,
 }
 
 #[derive(Clone, Debug, Serialize, Deserialize)]
@@ -56,6 +60,7 @@ fn gen(seed: u64, tier: Tier) -> Plan {
             dust: if rng.chance(1, 2) { rng.range(1, 2_000) } else { 0 },
             gt: i % 2 == 1,
             dt: 2000 + rng.below(1500),
+            nft: if rng.chance(1, 4) { rng.range(1, 3) as u8 } else { 0 },
         });
     }
     Plan {
@@ -95,6 +100,29 @@ fn payment_with_dust(c: &mut Chain, rng: &mut Rng, fee: u64, dust: u64, used: &m
     Some(make_tx(&c.keys[user].clone(), &[inp], &outs, ts, &tag.to_le_bytes()))
 }
 
+/// a user turns one of its outputs into an NFT whose payload slip goes to another user
+fn nft_creation(c: &mut Chain, rng: &mut Rng, fee: u64, class: u8, used: &mut Vec<UtxoKey>) -> Option<Transaction> {
+    let n_users = c.params.n_users;
+    let user = 1 + rng.usize_below(n_users);
+    let to = 1 + rng.usize_below(n_users);
+    let mine: Vec<SlipRef> = c.spendable(&c.keys[user].pk).into_iter().filter(|s| !used.contains(&s.key()) && s.amount > 100 && s.stype == SlipType::Normal).collect();
+    if mine.is_empty() {
+        return None;
+    }
+    let inp = mine[rng.usize_below(mine.len())].clone();
+    used.push(inp.key());
+    let fee = fee.min(inp.amount / 4);
+    let rest = inp.amount - fee;
+    let deposit = match class {
+        1 => 1 + rng.below(2_000).min(rest / 2),
+        2 => rest / 2,
+        _ => rest - rest / 50,
+    };
+    let tag = c.tag();
+    let ts = c.tip_rec().ts + tag;
+    Some(make_nft_tx(&c.keys[user].clone(), &inp, &c.keys[to].pk.clone(), deposit, rest - deposit, ts, &tag.to_le_bytes()))
+}
+
 fn same_output(a: &SlipRef, b: &SlipRef) -> bool {
     a.pk == b.pk && a.block_id == b.block_id && a.tx_ordinal == b.tx_ordinal && a.slip_index == b.slip_index
 }
@@ -109,6 +137,20 @@ fn check_rebroadcast(r: &mut RunResult, rec: &BlockRec, expiring: &BlockRec, bef
         for o in &tx.outputs {
             if o.amount > 0 && o.stype != SlipType::Bound && before.utxo.contains_key(&o.key()) {
                 u.push(o.clone());
+            }
+        }
+    }
+    // NFT groups of the expiring block: [Bound, payload, Bound] at consecutive output positions
+    let mut triples: Vec<(SlipRef, SlipRef, SlipRef)> = vec![];
+    for tx in &expiring.txs {
+        let o = &tx.outputs;
+        let mut i = 0;
+        while i + 2 < o.len() {
+            if o[i].stype == SlipType::Bound && o[i + 1].stype != SlipType::Bound && o[i + 2].stype == SlipType::Bound {
+                triples.push((o[i].clone(), o[i + 1].clone(), o[i + 2].clone()));
+                i += 3;
+            } else {
+                i += 1;
             }
         }
     }
@@ -151,6 +193,28 @@ fn check_rebroadcast(r: &mut RunResult, rec: &BlockRec, expiring: &BlockRec, bef
                     r.violate("C13|atr|input-shrunk", format!("block {}: rebroadcast input {} below original {}", rec.id, inp.amount, u[p].amount));
                     return (0, 0);
                 }
+                if let Some((s1, _, s3)) = triples.iter().find(|(_, pl, _)| same_output(pl, &u[p])) {
+                    // the group travels together: both bound slips reappear unchanged around the payload
+                    let ok = t.outputs.len() == 3
+                        && t.outputs[0].stype == SlipType::Bound
+                        && t.outputs[0].pk == s1.pk
+                        && t.outputs[0].amount == s1.amount
+                        && t.outputs[1].stype == SlipType::ATR
+                        && t.outputs[2].stype == SlipType::Bound
+                        && t.outputs[2].pk == s3.pk
+                        && t.outputs[2].amount == s3.amount
+                        && t.inputs.len() == 3
+                        && same_output(&t.inputs[0], s1)
+                        && same_output(&t.inputs[2], s3);
+                    if !ok {
+                        r.violate("C13|atr|nft-group-broken", format!("block {}: rebroadcast of the NFT group around {}-{}-{} does not carry both bound slips unchanged", rec.id, inp.block_id, inp.tx_ordinal, inp.slip_index));
+                        return (0, 0);
+                    }
+                    r.probe("nft_group_rebroadcast");
+                } else if t.outputs.iter().any(|s| s.stype == SlipType::Bound) || t.inputs.iter().any(|s| s.stype == SlipType::Bound) {
+                    r.violate("C13|atr|bound-slip-on-plain-rebroadcast", format!("block {}: rebroadcast of plain output {}-{}-{} carries bound slips", rec.id, inp.block_id, inp.tx_ordinal, inp.slip_index));
+                    return (0, 0);
+                }
                 sum_out += outs[0].amount as u128;
                 rebroadcast += 1;
             }
@@ -180,10 +244,10 @@ impl Scenario for C13 {
     fn meta(&self) -> Meta {
         Meta {
             level: "exploration",
-            rule: "run = real producer over genesis period 3..8 for 2-3 (quick) / 2-4 (thorough) windows; every block has 1-4 payments with fee class {0, small, large} (drives avg_fee_per_byte and so the rebroadcast fee) and optional dust outputs (1..2000 nolan); golden ticket every other block. For every accepted block B with id > gp+1: U = outputs of the chain's block at id-(gp+1) that are unspent in the reference ledger just before B. Oracle: B's ATR transactions are in bijection with a subset of U (same output identity, one ATR output to the same owner, 0 < amount <= input), nothing outside U and nothing twice, and sum(U) + total_payout_atr == sum(ATR outputs) + total_fees_atr in u128 (what is not rebroadcast is collected as fees). After B no member of U is spendable: an output older than the window offered as an input must be rejected by the pool and by block validation. distinct_nontrivial = distinct (genesis period, block id, |U|, rebroadcast count, dust count) of expiring blocks with |U| >= 1.",
+            rule: "run = real producer over genesis period 3..8 for 2-3 (quick) / 2-4 (thorough) windows; every block has 1-4 payments with fee class {0, small, large} (drives avg_fee_per_byte and so the rebroadcast fee) and optional dust outputs (1..2000 nolan); in 1 block of 4 one transaction creates an NFT group (Bound, payload, Bound) with a tiny / half / nearly-all deposit, which must be rebroadcast as a group (both bound slips unchanged around the payload) or collected; golden ticket every other block. For every accepted block B with id > gp+1: U = outputs of the chain's block at id-(gp+1) that are unspent in the reference ledger just before B. Oracle: B's ATR transactions are in bijection with a subset of U (same output identity, one ATR output to the same owner, 0 < amount <= input), nothing outside U and nothing twice, and sum(U) + total_payout_atr == sum(ATR outputs) + total_fees_atr in u128 (what is not rebroadcast is collected as fees). After B no member of U is spendable: an output older than the window offered as an input must be rejected by the pool and by block validation. distinct_nontrivial = distinct (genesis period, block id, |U|, rebroadcast count, dust count) of expiring blocks with |U| >= 1.",
             real: &["Block::generate_consensus_values (ATR section)", "Transaction::create_rebroadcast_transaction", "Block::validate (rebroadcast hash / slip count)", "Blockchain::add_block, prune/downgrade/delete_blocks", "Storage::load_block_from_disk"],
             stubs: &["SimIo", "SimConfig", "vendored ahash"],
-            assumptions: &["NFT-style bound triples are not generated in this family", "staking off"],
+            assumptions: &["NFT groups are created (Bound-Normal-Bound) and rebroadcast, not transferred, in this family", "staking off"],
         }
     }
     fn budget(&self, tier: Tier) -> Budget {
@@ -217,6 +281,12 @@ impl Scenario for C13 {
         for op in plan.ops.iter() {
             let mut used = vec![];
             let mut txs = vec![];
+            if op.nft > 0 {
+                if let Some(t) = nft_creation(&mut c, &mut rng, op.fee, op.nft, &mut used) {
+                    txs.push(t);
+                    r.fault("nft_created", 1);
+                }
+            }
             for _ in 0..op.ntx {
                 if let Some(t) = payment_with_dust(&mut c, &mut rng, op.fee, op.dust, &mut used) {
                     txs.push(t);
